@@ -10,7 +10,7 @@ git checkout -q -- . ; git clean -fdq -e _out -e target
 {
 echo "== apply patch"; git apply $out/patch.diff || echo "APPLY-PATCH-FAILED"
 echo "== existing tests with patch"
-cargo test -p $crate --offline --all-features --no-fail-fast "$@" 2>&1 | grep -E "^test result|FAILED|failed|error(\[|:)" | head -40
+timeout 3000 cargo test -p $crate --offline --all-features --no-fail-fast "$@" -- --skip test_slow_request 2>&1 | grep -E "^test result|FAILED|failed|error(\[|:)" | head -40
 echo "== demo with patch (expect FAIL)"
 git apply $out/demo.diff || echo "APPLY-DEMO-FAILED"
 demo_tests=$(grep -E '^\+\+\+ b/.*tests/.*\.rs' $out/demo.diff | sed 's#.*/tests/\(.*\)\.rs#\1#' | head -1)
